@@ -317,8 +317,11 @@ def _exact(op, a, b):
     raise AnalysisError('%s: no reference semantics for helper %r' % (ARITH_RID, op))
 
 
-def arith_check(text, common, fname, op, signed, builtin_arm, extra_truth=None, memo=None):
-    """-> (pairs evaluated, spurious, first problem or None, arms seen).  text: instantiated section (impl [+ proto])."""
+def arith_check(text, common, fname, op, signed, builtin_arm, extra_truth=None, memo=None, bit0=0, seen_bits=None):
+    """-> (pairs evaluated, spurious, first problem or None, arms seen).  text: instantiated section (impl [+ proto]).
+    bit0: value of *overflow on entry.  With bit0 != 0 (the bit was set by an earlier operation of the same folded expression) the only
+    obligations are `the bit is still non-zero on return` and `no undefined operation` (rules/s4C04.py, C04-STICKY).
+    seen_bits: optional set collecting every value the bit has on return."""
     def truth(c):
         c = ' '.join(c.split())
         if c == 'defined(__PYX_HAVE_BUILTIN_OVERFLOW)':
@@ -346,10 +349,10 @@ def arith_check(text, common, fname, op, signed, builtin_arm, extra_truth=None, 
     if len(f.params) != 3 or not f.params[2][2]:
         return 0, 0, ('signature', '%s does not take (a, b, int *overflow)' % name), set()
     if memo is not None:
-        mk = (name, op, signed, builtin_arm)
+        mk = (name, op, signed, builtin_arm, bit0)
         if mk in memo:
             return memo[mk]          # an alias (#define x_const x) of a helper that was evaluated already in this variant
-        res = arith_check(text, common, name, op, signed, builtin_arm, extra_truth)
+        res = arith_check(text, common, name, op, signed, builtin_arm, extra_truth, bit0=bit0, seen_bits=seen_bits)
         memo[mk] = res
         return res
     lo, hi = MC.lo_hi(MODEL_W, signed)
@@ -384,7 +387,7 @@ def arith_check(text, common, fname, op, signed, builtin_arm, extra_truth=None, 
             for a in range(lo, hi + 1):
                 for b in range(lo, hi + 1):
                     n += 1
-                    bit = MC.Cell(0, model.int_t)
+                    bit = MC.Cell(bit0, model.int_t)
                     it.steps = 0
                     it.trace = []
                     where = '%s(%d, %d) on the model machine "%s" (%d-bit %s type%s%s)' % (
@@ -398,6 +401,13 @@ def arith_check(text, common, fname, op, signed, builtin_arm, extra_truth=None, 
                     except MC.Goto as g:
                         raise AnalysisError('%s: goto %s leaves %s' % (ARITH_RID, g.label, fname))
                     arms.add(tuple(it.trace))
+                    if seen_bits is not None:
+                        seen_bits.add(bit.v)
+                    if bit0:
+                        if not bit.v:
+                            return n, spurious, ('cleared', '%s called while the shared overflow bit is already %d (set by an earlier operation of the same folded expression) '
+                                                            'returns with the bit 0: the earlier overflow is forgotten and the wrapped value is used' % (where, bit0)), arms
+                        continue
                     exact = _exact(op, a, b)
                     ok = exact is not None and MC.fits(exact, MODEL_W, signed)
                     if not ok:
@@ -436,6 +446,7 @@ def rule_arith(ctx, floor=20):
     ops = op_names(ctx)
     rel = 'Cython/Utility/' + OVF
     spur_total = 0
+    seen_bits = r.bit_values = set()      # every value a helper leaves in the bit (read by C04-STICKY)
     for signed, sec, key in ((True, 'BaseCaseSigned', 'INT'), (False, 'BaseCaseUnsigned', 'UINT')):
         impl, proto = _section(ctx, sec, 'impl'), _section(ctx, sec, 'proto')
         tname = T if signed else 'unsigned ' + T
@@ -455,7 +466,7 @@ def rule_arith(ctx, floor=20):
                 fname = '__Pyx_%s_sa_checking_overflow' % variant
                 for builtin_arm in (True, False):
                     k = '%s:%s:%s:%s' % (OVF, sec, variant, 'builtin' if builtin_arm else 'portable')
-                    n, spurious, prob, arms = arith_check(text, common, fname, op, signed, builtin_arm, memo=memo)
+                    n, spurious, prob, arms = arith_check(text, common, fname, op, signed, builtin_arm, memo=memo, seen_bits=seen_bits)
                     spur_total += spurious
                     r.inst(k, sample='%s: %d operand pairs, %d spurious, call chains %s' % (k, n, spurious, sorted({'>'.join(a) for a in arms})[:3]))
                     if prob:
@@ -473,7 +484,7 @@ def rule_arith(ctx, floor=20):
                 continue
             memo = {}
             for variant in ('lshift', 'lshift_const'):
-                n, spurious, prob, arms = arith_check(text, common, '__Pyx_%s_sa_checking_overflow' % variant, 'lshift', signed, False, memo=memo)
+                n, spurious, prob, arms = arith_check(text, common, '__Pyx_%s_sa_checking_overflow' % variant, 'lshift', signed, False, memo=memo, seen_bits=seen_bits)
                 spur_total += spurious
                 r.inst(k + ':' + variant, sample='%s:%s: %d operand pairs, %d spurious' % (k, variant, n, spurious))
                 if prob:
